@@ -36,6 +36,16 @@ import Refine.Scalar
   * `ref_matrix_jacob_m` → `jacobM`, `ref_matrix_healthy_m` → `healthyM`
   * macros `ref_matrix_vt_m_v`, `ref_matrix_sqrt_vt_m_v` → `vtMv`, `sqrtVtMv`; `…_deriv` → `vtMvDeriv`, `sqrtVtMvDeriv`
   * `mapEig f d` replaces the three eigenvalues by `f` of them (the `d[k] = log(d[k])` lines).
+
+  Internals of `diagM` (exposed because the theorems are stated about them): `rot0` (first rotation, returns the
+  QL state `QL α` = d[0..11], e[0..2], f, tst1), `rowStep l` (body of the row loop), `QL.findSmall`, `QL.isSmall`
+  (the convergence test), `qlLoop` (≤ 30 sweeps as fuel), `sweep l mm` = `shift l` + `innerLoop` of `innerStep`s
+  (each a plane rotation `rotVec i c s`).  Internals of `invGen3`: `invStep j` = `swapStep` (pivot search
+  `pivotRow`) + `scaleRow` + `elimOthers` (`elimRow`).
+
+  SWITCH: `relativeConvergence : Bool := false` selects the convergence test of /repo (absolute 1.0e-14);
+  set it to `true` when the fix `ABS(tst2 - tst1) <= 1.0e-14 * tst1` lands in /repo — nothing else changes,
+  and every theorem of `Props/C16.lean` is proved for both values.
 -/
 namespace Refine.Model.Matrix
 open Refine Refine.Scalar
